@@ -106,6 +106,8 @@ class ModuleInfo:
             if ref and ref.get("__digest__") != dg:
                 self.derefactored = derefactor.apply(relpath, self.tree, ref)
             self.renamed_locals = reflocals.restore(relpath, self.tree, dg)
+            if ref and ref.get("__digest__") != dg:
+                self.temporaries = reflocals.settle_temporaries(relpath, self.tree)
         name = relpath[:-3].replace("/", ".")
         if name.endswith(".__init__"):
             name = name[: -len(".__init__")]
